@@ -668,6 +668,31 @@ impl Exec {
                     }
                 }
             }
+            Op::Swapped { a, b, len } => {
+                let ia = key_index(*a, self.keys.len());
+                let ib = key_index(*b, self.keys.len());
+                if ia != ib {
+                    let ka = self.admit(ia, &WKind::Put(*len));
+                    let kb = self.admit(ib, &WKind::Put(*len));
+                    if let (Some(ka), Some(kb)) = (ka.clone(), kb.clone()) {
+                        let s1 = self.seqno.next();
+                        let s2 = self.seqno.next();
+                        self.apply_write(ia, ka, s2);
+                        self.apply_write(ib, kb, s1);
+                        self.visible.fetch_max(s2 + 1);
+                        self.stats.bump("w.swapped_seqnos");
+                    } else {
+                        // discipline keys: fall back to ordinary single writes for what was admitted
+                        for (i, k) in [(ia, ka), (ib, kb)] {
+                            if let Some(k) = k {
+                                let s = self.seqno.next();
+                                self.apply_write(i, k, s);
+                                self.visible.fetch_max(s + 1);
+                            }
+                        }
+                    }
+                }
+            }
             Op::Rotate => {
                 let r = self.tree().rotate_memtable();
                 if r.is_some() {
